@@ -73,7 +73,8 @@ pub fn profile(id: &str) -> Profile {
             p.gates = (1, 2);
         }
         "C11" => {
-            p.opw = OpW { pipein: 8, desync: 6, sync: 6, release: 3, trysync: 2, futdesync: 2, await_: 2, ..OpW::default() };
+            p.shape = Shape::PipeIn;
+            p.opw = OpW { pipein: 1, desync: 6, sync: 6, release: 3, trysync: 2, futdesync: 2, await_: 2, opengate: 4, ..OpW::default() };
             p.streams = (1, 2);
             p.queue_level_pct = 0;
             p.gates = (0, 2);
@@ -81,7 +82,8 @@ pub fn profile(id: &str) -> Profile {
             p.root_holds_pct = 40;
         }
         "C12" => {
-            p.opw = OpW { pipe: 8, consume: 12, desync: 3, sync: 3, ..OpW::default() };
+            p.shape = Shape::PipeConsume;
+            p.opw = OpW { pipe: 2, consume: 6, desync: 4, sync: 3, futdesync: 2, await_: 2, ..OpW::default() };
             p.streams = (1, 2);
             p.queue_level_pct = 0;
             p.pool = (1, 3);
@@ -170,7 +172,7 @@ pub fn gated_case(p: &Profile) -> BoxedStrategy<Case> {
         let _ = first_free;
         callers.extend(free_callers);
         let must: Vec<u8> = (k as u8..objects).collect();
-        let cfg = Cfg { pool, objects, gates, streams: 0, level: Level::Desync, unlock_points, spurious: vec![], pre_open: vec![], root_holds: true, double_wake: false, gate_keep_all: false, keep_going_after_early_destroy: false, despawn_without_quiescence: false };
+        let cfg = Cfg { pool, objects, gates, streams: 0, level: Level::Desync, unlock_points, spurious: vec![], pre_open: vec![], root_holds: true, double_wake: false, gate_keep_all: false, stream_always_register: false, keep_going_after_early_destroy: false, despawn_without_quiescence: false };
         let phase0 = Phase { callers, must_finish_objs: if k > 0 { must } else { vec![] }, ..Default::default() };
         Case { cfg, phases: vec![phase0], sched }
     })
@@ -247,7 +249,7 @@ pub fn panic_case(p: &Profile) -> BoxedStrategy<Case> {
             };
             ph2.push(vec![Op::Attempt { o: 0, kind, id: 0 }]);
         }
-        let cfg = Cfg { pool, objects, gates: 1, streams: 0, level: Level::Desync, unlock_points, spurious: vec![], pre_open: vec![], root_holds: true, double_wake: false, gate_keep_all: false, keep_going_after_early_destroy: false, despawn_without_quiescence: false };
+        let cfg = Cfg { pool, objects, gates: 1, streams: 0, level: Level::Desync, unlock_points, spurious: vec![], pre_open: vec![], root_holds: true, double_wake: false, gate_keep_all: false, stream_always_register: false, keep_going_after_early_destroy: false, despawn_without_quiescence: false };
         let phase0 = Phase { callers, expect_panicked: vec![0], ..Default::default() };
         let phase1 = Phase { callers: ph2, capacity_probe: true, ..Default::default() };
         Case { cfg, phases: vec![phase0, phase1], sched }
@@ -305,15 +307,47 @@ pub fn suspend_case(p: &Profile) -> BoxedStrategy<Case> {
     .boxed()
 }
 
+/// C11: splice a `pipe_in` (processing function with yields / awaits) into a caller; the producer pushes bursts
+pub fn pipein_case(p: &Profile) -> BoxedStrategy<Case> {
+    let p = p.clone();
+    let pipe_body = vec(prop_oneof![3 => Just(Step::Touch), 5 => Just(Step::Yield), 3 => any::<u8>().prop_map(|g| Step::AwaitGate { g })], 0..=3);
+    let producer = vec(prop_oneof![3 => Just(POp::Yield), 4 => (1u8..=3).prop_map(|n| POp::Push { n }), 4 => Just(POp::PushDuring), 1 => Just(POp::Close)], 1..=7);
+    (cfg_strategy(&p), phase_strategy(&p), sched_strategy(p.sched_bytes), (any::<u8>(), any::<u8>(), any::<u8>(), pipe_body, producer)).prop_map(|(mut cfg, mut phase, sched, (which, pos, o, body, producer))| {
+        cfg.streams = cfg.streams.max(1);
+        cfg.level = Level::Desync;
+        if !phase.callers.is_empty() {
+            let c = (which as usize * phase.callers.len()) >> 8;
+            let ops = &mut phase.callers[c];
+            let at = (pos as usize * (ops.len() + 1)) >> 8;
+            ops.insert(at, Op::PipeIn { o, s: 0, body, id: 0 });
+        }
+        if phase.producers.is_empty() {
+            phase.producers.push(producer);
+        } else {
+            phase.producers[0] = producer;
+        }
+        Case { cfg, phases: vec![phase], sched }
+    })
+    .boxed()
+}
+
 /// C16: splice `pipe; <work>; drop output` into a caller; the input mostly stays open and silent afterwards
-pub fn pipedrop_case(p: &Profile) -> BoxedStrategy<Case> {
+pub fn pipedrop_case(p: &Profile, drop_output: bool) -> BoxedStrategy<Case> {
     let p = p.clone();
     let mut mid = p.clone();
-    mid.opw = OpW { consume: 6, yield_: 6, desync: 4, sync: 2, opengate: 2, trysync: 1, futdesync: 0, futsync: 0, after: 0, await_: 0, syncwait: 0, pollonce: 0, dropfut: 0, detach: 0, release: 0, waitfor: 0, ..OpW::default() };
-    let mid_ops = vec(op_strategy(&mid), 0..=3);
+    mid.opw = if drop_output {
+        OpW { consume: 6, yield_: 6, desync: 4, sync: 2, opengate: 2, trysync: 1, futdesync: 0, futsync: 0, after: 0, await_: 0, syncwait: 0, pollonce: 0, dropfut: 0, detach: 0, release: 0, waitfor: 0, ..OpW::default() }
+    } else {
+        OpW { consume: 14, yield_: 4, desync: 2, sync: 1, opengate: 2, trysync: 0, futdesync: 0, futsync: 0, after: 0, await_: 0, syncwait: 0, pollonce: 0, dropfut: 0, detach: 0, release: 0, waitfor: 0, ..OpW::default() }
+    };
+    let mid_ops = vec(op_strategy(&mid), if drop_output { 0..=3 } else { 1..=5 });
     let pipe_body = vec(prop_oneof![4 => Just(Step::Touch), 4 => Just(Step::Yield), 3 => any::<u8>().prop_map(|g| Step::AwaitGate { g })], 0..=2);
-    let producer = vec(prop_oneof![3 => Just(POp::Yield), 6 => (1u8..=3).prop_map(|n| POp::Push { n })], 0..=5);
-    (cfg_strategy(&p), phase_strategy(&p), sched_strategy(p.sched_bytes), (any::<u8>(), any::<u8>(), any::<u8>(), any::<u8>(), mid_ops, pipe_body, producer)).prop_map(|(mut cfg, mut phase, sched, (which, pos, o, depth, mid, body, producer))| {
+    let producer = if drop_output {
+        vec(prop_oneof![3 => Just(POp::Yield), 6 => (1u8..=3).prop_map(|n| POp::Push { n })], 0..=5).boxed()
+    } else {
+        vec(prop_oneof![2 => Just(POp::Yield), 5 => (1u8..=4).prop_map(|n| POp::Push { n }), 3 => Just(POp::PushDuring), 1 => Just(POp::Close)], 1..=6).boxed()
+    };
+    (cfg_strategy(&p), phase_strategy(&p), sched_strategy(p.sched_bytes), (any::<u8>(), any::<u8>(), any::<u8>(), any::<u8>(), mid_ops, pipe_body, producer)).prop_map(move |(mut cfg, mut phase, sched, (which, pos, o, depth, mid, body, producer))| {
         cfg.streams = cfg.streams.max(1);
         cfg.level = Level::Desync;
         if !phase.callers.is_empty() {
@@ -326,7 +360,9 @@ pub fn pipedrop_case(p: &Profile) -> BoxedStrategy<Case> {
                 Op::Consume { k, .. } => Op::Consume { slot: 255, k },
                 other => other,
             }));
-            seq.push(Op::DropPipe { slot: 255 });
+            if drop_output {
+                seq.push(Op::DropPipe { slot: 255 });
+            }
             let tail = ops.split_off(at);
             ops.extend(seq);
             ops.extend(tail);
